@@ -132,15 +132,15 @@ def solve_lp(
                 variable_names=[v.name for v in non_continuous],
             )
         else:
-            warnings.warn(
+            from optyx.solvers import warn_always
+
+            # Attributed to the caller of Problem.solve() and delivered every time:
+            # a relaxation changes the meaning of the result, so the second model
+            # solved from the same line (a loop, a helper) must be announced too.
+            warn_always(
                 f"Variables [{names}] have integer/binary domains but will be relaxed "
                 f"to continuous. linprog does not support integer programming. "
                 f"For true MIP, consider scipy.optimize.milp or PuLP.",
-                UserWarning,
-                # attribute the warning to the caller of Problem.solve(), as the SciPy
-                # route does: with stacklevel=2 every call site shared one location
-                # (problem.py) and Python's once-per-location rule silenced the
-                # relaxation of every later model with the same variable names
                 stacklevel=3,
             )
 
